@@ -989,6 +989,9 @@ func (c *FnCtx) finishContractOld(p *Path, fc *FuncContract, fn *ssa.Function, r
 			if cl.Seq && c.mode != "seq" {
 				continue
 			}
+			if cl.Acq {
+				continue // a statement about the callee's critical section, not about the caller's pre-state
+			}
 			t, ok := c.evalClause(post, cl, "ensures of "+name)
 			if ok {
 				q.assume(t)
@@ -1244,6 +1247,38 @@ func (c *FnCtx) monitorAcquire(p *Path, key string, m Val) {
 			c.havoc(&p.heap, tk+"."+g, m.T)
 			c.havoc(&p.heap, tk+".$"+g, m.T)
 		}
+		// other threads may have allocated: the allocation set grows, and every reference another thread left
+		// in a guarded field denotes an object that exists now (so it differs from anything allocated later)
+		al := c.heapGetAlloc(p)
+		al2 := c.fresh("Ha $alloc", "(Array Int Bool)")
+		p.assume(fmt.Sprintf("(forall ((cx Int)) (! (=> (select %s cx) (select %s cx)) :pattern ((select %s cx))))", al, al2, al))
+		for _, a := range p.allocs {
+			p.assume(fmt.Sprintf("(select %s %s)", al2, a))
+		}
+		p.heap.m["$alloc"] = al2
+		if st := structOf(c.eng.parseType(c.eng.pkgByDir(mon.Pkg), mon.Type)); st != nil {
+			for i := 0; i < st.NumFields(); i++ {
+				f := st.Field(i)
+				guarded := false
+				for _, g := range mon.Guards {
+					guarded = guarded || g == f.Name()
+				}
+				if !guarded {
+					continue
+				}
+				for _, l := range leavesOf(f.Type()) {
+					if !refLeaf(l) {
+						continue
+					}
+					key := tk + "." + f.Name() + l.Path
+					if strings.HasPrefix(key, "[]") || strings.HasPrefix(key, "map[") {
+						continue
+					}
+					v := fmt.Sprintf("(select %s %s)", c.heapGet(&p.heap, key, "Int"), m.T)
+					p.assume(fmt.Sprintf("(or (<= %s 1) (select %s %s))", v, al2, v))
+				}
+			}
+		}
 	}
 	self := Val{K: KPtr, T: m.T, Typ: types.NewPointer(c.eng.parseType(c.eng.pkgByDir(mon.Pkg), mon.Type))}
 	ec := &EvalCtx{c: c, p: p, env: map[string]Val{mon.Self: self}, heap: &p.heap, pkg: c.eng.pkgByDir(mon.Pkg)}
@@ -1251,6 +1286,13 @@ func (c *FnCtx) monitorAcquire(p *Path, key string, m Val) {
 		t, ok := c.evalClause(ec, cl, "monitor "+key)
 		if ok {
 			p.assume(t)
+		}
+	}
+	for _, cl := range mon.Rely {
+		t, ok := c.evalClause(ec, cl, "monitor rely "+key)
+		if ok {
+			p.assume(t)
+			c.note("environment assumption at acquisition of " + key + " (not checked at release): " + cl.Src)
 		}
 	}
 	if len(mon.Guar) > 0 {
